@@ -1599,10 +1599,10 @@ mutant("c07-upgradeTo-in-goroutine", "C07", "C07-D7", "engine.io/server.go",
 # ---------------------------------------------------------------- C09 (round 2)
 mutant("c09-hasbinary-skips-nested-slices", "C09", "C09-D6", "parser/json/binary.go",
        """			switch sk {
-			case reflect.Ptr, reflect.Interface, reflect.Struct, reflect.Slice:
+			case reflect.Ptr, reflect.Interface, reflect.Struct, reflect.Slice, reflect.Map:
 				l := rv.Len()""",
        """			switch sk {
-			case reflect.Ptr, reflect.Interface, reflect.Struct:
+			case reflect.Ptr, reflect.Interface, reflect.Struct, reflect.Map:
 				l := rv.Len()""")
 mutant("c09-reconstruct-skips-maps", "C09", "C09-D6", "parser/json/binary.go",
        "	case reflect.Map:\n		err := r.reconstructMap(rv)", "	case reflect.Chan:\n		err := r.reconstructMap(rv)")
@@ -1909,3 +1909,44 @@ mutant("c09-f32-encode-map-binary-pointer", "C09", "C09-D9", "parser/json/binary
 					x = x.Elem()
 				}
 """, "")
+
+# F33: slice elements of kind map
+mutant("c09-f33-slice-of-maps-not-descended", "C09", "C09-D6", "parser/json/binary.go",
+       "case reflect.Ptr, reflect.Interface, reflect.Struct, reflect.Slice, reflect.Map:",
+       "case reflect.Ptr, reflect.Interface, reflect.Struct, reflect.Slice:", count=0)
+
+# round 3 C18: take-and-clear under a read lock; wrappers that drop arguments
+mutant("c18-getall-clears-under-rlock", "C18", "C18-D4", "store.go",
+       """func (e *handlerStore[T]) getAll() (handlers []T) {
+	e.mu.Lock()
+	defer e.mu.Unlock()""",
+       """func (e *handlerStore[T]) getAll() (handlers []T) {
+	e.mu.RLock()
+	defer e.mu.RUnlock()""")
+MUTANTS[-1]["then"] = ("""	handlerStore[T comparable] struct {
+		mu        sync.Mutex""", """	handlerStore[T comparable] struct {
+		mu        sync.RWMutex""")
+mutant("c18-offevent-drops-nil-arguments", "C18", "C18-D8", "server_socket_events.go",
+       """	values := make([]reflect.Value, len(handler))
+	for i := range values {
+		values[i] = reflect.ValueOf(handler[i])
+	}
+	s.eventHandlers.off(eventName, values...)""",
+       """	values := make([]reflect.Value, 0, len(handler))
+	for _, h := range handler {
+		if h != nil {
+			values = append(values, reflect.ValueOf(h))
+		}
+	}
+	s.eventHandlers.off(eventName, values...)""")
+mutant("c18-offclose-skips-last", "C18", "C18-D8", "client_manager_events.go",
+       """	f := make([]*ManagerCloseFunc, len(_f))
+	for i := range f {
+		f[i] = &_f[i]
+	}
+	m.closeHandlers.off(f...)""",
+       """	f := make([]*ManagerCloseFunc, len(_f))
+	for i := range f {
+		f[i] = &_f[i]
+	}
+	m.closeHandlers.off(f[:len(f)/2]...)""")
